@@ -458,22 +458,39 @@ def r7_log_kind_arms(ctx, rule_id="C04-R7"):
             for es in cfg.enum_switches(b):
                 if es.enum != "sos_core::events::EventLogType":
                     continue
-                for v, calls in idioms.arm_calls(b, es).items():
-                    if v not in LOG_KIND:
-                        continue
-                    idx = 0
-                    for i, t in calls:
-                        m = KIND_CALL.match(cname(t))
-                        if not m:
+                # arms are grouped by target block: `Identity | Folder(_) => ..` is ONE arm
+                # serving two kinds, and whatever it calls must fit both
+                by_tgt = {}
+                for v, tgt in es.targets.items():
+                    by_tgt.setdefault(tgt, []).append(v)
+                reach_t = {tgt: cfg.reach(b, [tgt], cut_blocks=[es.block]) for tgt in by_tgt}
+                if es.otherwise_live and es.otherwise not in reach_t:
+                    reach_t[es.otherwise] = cfg.reach(b, [es.otherwise], cut_blocks=[es.block])
+                for tgt, vs in sorted(by_tgt.items()):
+                    others = set()
+                    for t2, rr in reach_t.items():
+                        if t2 != tgt:
+                            others |= rr
+                    region = reach_t[tgt] - others
+                    calls = [(i, b.blocks[i]["term"]) for i in sorted(region)
+                             if (b.blocks[i].get("term") or {}).get("k") == "call" and not idioms.is_noise(b.blocks[i]["term"]) and not idioms.is_logging(b.blocks[i]["term"])]
+                    for v in sorted(vs):
+                        if v not in LOG_KIND:
                             continue
-                        kind = (m.group(1) or m.group(2)).rstrip("s")
-                        n += 1
-                        idx += 1
-                        k = "%s|%s|%s#%d" % (root, v, cname(t), idx)
-                        if kind == LOG_KIND[v]:
-                            r.ok(k, cfg.loc(b, i), "%s arm uses %s" % (v, cname(t)), work=1)
-                        else:
-                            r.violation(k, cfg.loc(b, i), "the %s arm calls %s: it reads or changes the %s log where the %s log is meant" % (v, cname(t), kind, LOG_KIND[v]), work=1)
+                        idx = 0
+                        for i, t in calls:
+                            m = KIND_CALL.match(cname(t))
+                            if not m:
+                                continue
+                            kind = (m.group(1) or m.group(2)).rstrip("s")
+                            n += 1
+                            idx += 1
+                            k = "%s|%s|%s#%d" % (root, v, cname(t), idx)
+                            if kind == LOG_KIND[v]:
+                                r.ok(k, cfg.loc(b, i), "%s arm uses %s" % (v, cname(t)), work=1)
+                            else:
+                                r.violation(k, cfg.loc(b, i), "the %s arm%s calls %s: it reads or changes the %s log where the %s log is meant" % (
+                                    v, " (shared with %s)" % ", ".join(x for x in vs if x != v) if len(vs) > 1 else "", cname(t), kind, LOG_KIND[v]), work=1)
     if n < 40:
         r.anchor_missing("log-kind calls inside EventLogType arms (found %d, 51 on the pinned tree)" % n)
 
